@@ -448,6 +448,10 @@ func evalChain(p ast.Position, scope *stateful.Scope, stck *stack) error {
 				return wrapError(p, err)
 			}
 		}
+		if rd, ok := describer.(*ReflectionDescriber); ok && rd.HasProperty(name) && !rd.hasReadableProperty(name) {
+			// Properties set by property methods cannot be read.
+			return errorf(p, "property %s of object %T must be called as a method: .%s()", name, l, name)
+		}
 		if describer.HasProperty(name) {
 			stck.Push(describer.Property(name))
 		} else {
@@ -805,6 +809,13 @@ func (r *ReflectionDescriber) HasProperty(name string) bool {
 		return ok
 	}
 	_, ok = r.properties[name]
+	return ok
+}
+
+// hasReadableProperty reports whether the property is a field that can be read,
+// as opposed to a property that can only be set via its property method.
+func (r *ReflectionDescriber) hasReadableProperty(name string) bool {
+	_, ok := r.properties[capitalizeFirst(name)]
 	return ok
 }
 
